@@ -652,6 +652,26 @@ func c13Generate(o *out, r *rng, thorough bool) {
 		mul = 20
 	}
 
+	// ---- 0. witnesses of two recorded findings: a quantile whose rank q*n/100 ends in exactly one half (the float
+	//         expression int64(q/100*n + 0.5) can land on the rank below), and a Mean whose sum of count*value leaves
+	//         int64. T lo hi s n q goRank exactRank value tie ; U lo hi s v count meanbits total
+	for _, w := range [][2]int64{{45, 70}, {25, 58}, {50, 29}, {50, 57}, {75, 82}, {85, 70}, {90, 35}, {40, 70}, {10, 25}} {
+		c := hcfg{1, 1000, 3}
+		h := hdrhist.New(c.lo, c.hi, c.s)
+		for v := int64(1); v <= w[0]; v++ {
+			_ = h.RecordValue(v)
+		}
+		q := float64(w[1])
+		g, e, tie := c13Rank(q, w[0])
+		o.printf("T %d %d %d %d %s %d %d %d %d\n", c.lo, c.hi, c.s, w[0], c13FmtQ(q), g, e, h.ValueAtQuantile(q), b2i(tie))
+	}
+	for _, w := range [][2]int64{{20000000000, 500000000}, {20000000000, 5}, {3000000000000, 4000000}} {
+		c := hcfg{1, 3600000000000, 3}
+		h := hdrhist.New(c.lo, c.hi, c.s)
+		_ = h.RecordValues(w[0], w[1])
+		o.printf("U %d %d %d %d %d %d %d\n", c.lo, c.hi, c.s, w[0], w[1], math.Float64bits(h.Mean()), h.TotalCount())
+	}
+
 	// ---- 1. quantiles / Min / Max / Mean: random multisets, dense q grid
 	for i := 0; i < 400*mul; i++ {
 		c := c13Cfg(r)
